@@ -26,8 +26,25 @@ Documented type behaviour used by the resolver: a ``Selector`` given non-empty `
 no default declares ``default = first object``; a ``Tuple`` given a default declares
 ``length = len(default)``; a Selector whose ``check_on_set`` is False appends an unknown default
 to its objects.
+
+Extension (families RNG/DRG, blocks `flags` and `solo`): ``Range`` (numbers) and ``DateRange`` /
+``CalendarDateRange`` (``datetime.date`` values only, for which both types document the same
+meaning) join the families: the validity of a Range default depends on the *sign of step*
+(step > 0: start <= end, step < 0: start >= end; date ranges additionally need end >= start), on
+the hard bounds (both elements) and never on the soft bounds, so a redeclaration that overrides
+ONLY ``step`` / ``softbounds`` / ``bounds`` / ``allow_None`` while inheriting a non-None default is
+judged like any other.  ``readonly, per_instance, pickle_default_value, allow_refs, nested_refs,
+softbounds`` became specifiable attributes; documented constructor rule used by the resolver:
+``readonly=True`` declares ``constant=True`` (declarations that write readonly=True next to
+instantiate=True are not generated: what such a declaration "specifies" for instantiate is not
+stated).  Block `flags`: full product readonly x constant x instantiate in {unspecified, False,
+True} per declaring class (explicitly written type defaults next to unspecified related
+attributes) over chain2/chain3/diamond/diamond_tail with skipping classes; block `solo`: every
+constructor attribute of every type overridden ALONE (equal / conflicting / explicitly the type
+default) under parents that specify everything / the core + allow_None=True / the core only.
 """
 import copy
+import datetime
 import itertools
 import logging
 import multiprocessing as mp
@@ -54,6 +71,9 @@ SUPERS = {   # reflexive-transitive "is a" relation of the Parameter types
     'ListSelector': ('ListSelector', 'Selector', 'Parameter'),
     'Tuple': ('Tuple', 'Parameter'),
     'NumericTuple': ('NumericTuple', 'Tuple', 'Parameter'),
+    'Range': ('Range', 'NumericTuple', 'Tuple', 'Parameter'),
+    'DateRange': ('DateRange', 'Range', 'NumericTuple', 'Tuple', 'Parameter'),
+    'CalendarDateRange': ('CalendarDateRange', 'Range', 'NumericTuple', 'Tuple', 'Parameter'),
 }
 COMMON_SLOTS = ['default', 'doc', '_label', 'precedence', 'instantiate', 'constant', 'readonly',
                 'pickle_default_value', 'allow_None', 'per_instance', 'allow_refs', 'nested_refs']
@@ -67,7 +87,11 @@ EXTRA_SLOTS = {
     'Selector': ['_objects', 'names', 'check_on_set', 'compute_default_fn'],
     'ListSelector': ['_objects', 'names', 'check_on_set', 'compute_default_fn'],
     'Tuple': ['length'], 'NumericTuple': ['length'],
+    'Range': ['length', 'bounds', 'softbounds', 'inclusive_bounds', 'step'],
+    'DateRange': ['length', 'bounds', 'softbounds', 'inclusive_bounds', 'step'],
+    'CalendarDateRange': ['length', 'bounds', 'softbounds', 'inclusive_bounds', 'step'],
 }
+_RANGE_DEFAULTS = dict(default=None, bounds=None, softbounds=None, inclusive_bounds=(True, True), step=None)
 TYPE_DEFAULTS = {
     'Parameter': dict(default=None),
     'String': dict(default='', regex=None),
@@ -77,13 +101,24 @@ TYPE_DEFAULTS = {
     'ListSelector': dict(default=None, compute_default_fn=None),
     'Tuple': dict(default=(0, 0)),                                  # length computed
     'NumericTuple': dict(default=(0, 0)),
+    'Range': dict(_RANGE_DEFAULTS), 'DateRange': dict(_RANGE_DEFAULTS),       # length: always declared (2)
+    'CalendarDateRange': dict(_RANGE_DEFAULTS),
 }
-FAMILY_OF = {'Parameter': 'STR', 'String': 'STR', 'Number': 'NUM', 'Integer': 'NUM',
+FAMILY_OF = {'Range': 'RNG', 'DateRange': 'DRG', 'CalendarDateRange': 'DRG',
+             'Parameter': 'STR', 'String': 'STR', 'Number': 'NUM', 'Integer': 'NUM',
              'Selector': 'SEL', 'ListSelector': 'SEL', 'Tuple': 'TUP', 'NumericTuple': 'TUP'}
 FAMILY_TYPES = {'NUM': ('Number', 'Integer'), 'STR': ('Parameter', 'String'),
-                'SEL': ('Selector', 'ListSelector'), 'TUP': ('Tuple', 'NumericTuple')}
+                'SEL': ('Selector', 'ListSelector'), 'TUP': ('Tuple', 'NumericTuple'),
+                'RNG': ('Range',), 'DRG': ('DateRange', 'CalendarDateRange')}
+FAMILIES = ('NUM', 'STR', 'SEL', 'TUP', 'RNG', 'DRG')
+OLD_FAMILIES = ('NUM', 'STR', 'SEL', 'TUP')
 ATTR_ORDER = ['default', 'bounds', 'inclusive_bounds', 'step', 'regex', 'objects', 'length',
-              'check_on_set', 'allow_None', 'instantiate', 'constant', 'doc', 'label', 'precedence']
+              'check_on_set', 'allow_None', 'instantiate', 'constant', 'doc', 'label', 'precedence',
+              'softbounds', 'readonly', 'per_instance', 'pickle_default_value', 'allow_refs', 'nested_refs']
+HAS_ATTR = {'bounds': ('NUM', 'RNG', 'DRG'), 'inclusive_bounds': ('NUM', 'RNG', 'DRG'),
+            'step': ('NUM', 'RNG', 'DRG'), 'softbounds': ('NUM', 'RNG', 'DRG'), 'regex': ('STR',),
+            'objects': ('SEL',), 'check_on_set': ('SEL',), 'length': ('TUP',)}
+D0, D1, D2, D3, D4, D5, D9 = (datetime.date(2020, 1, k) for k in (1, 2, 3, 4, 5, 6, 10))
 R1, R2 = '^[abc]*$', '^[xyz]*$'
 
 
@@ -111,6 +146,10 @@ def own_spec(tname, spec):
         own['default'] = own['_objects'][0]          # documented: picks the first object
     if fam == 'TUP' and own.get('default'):
         own['length'] = len(own['default'])          # documented: length determined by the default
+    if fam in ('RNG', 'DRG'):
+        own['length'] = len(own['default']) if own.get('default') else 2    # a range declares length 2
+    if own.get('readonly') is True:
+        own['constant'] = True                       # documented: readonly => constant
     return own
 
 
@@ -215,6 +254,34 @@ def valid(tname, m):
         if tname == 'NumericTuple' and not all(_isnum(e) for e in v):
             return False
         return len(v) == m['length']
+    if fam in ('RNG', 'DRG'):
+        if v is None:
+            return an
+        if not isinstance(v, tuple) or len(v) != m['length'] or len(v) != 2:
+            return False
+        if fam == 'RNG' and not all(_isnum(e) for e in v):
+            return False
+        if fam == 'DRG' and not all(type(e) is datetime.date for e in v):
+            return False
+        b = m['bounds']
+        if b is not None:
+            lo, hi = b
+            ilo, ihi = m['inclusive_bounds']
+            for e in v:
+                if hi is not None and not (e <= hi if ihi is True else e < hi):
+                    return False
+                if lo is not None and not (e >= lo if ilo is True else e > lo):
+                    return False
+        start, end = v
+        if fam == 'DRG' and not end >= start:
+            return False
+        st = m['step']
+        if st is not None:
+            if st > 0 and not start <= end:
+                return False
+            if st < 0 and not start >= end:
+                return False
+        return True                                   # soft bounds never constrain the value
     if fam == 'SEL':
         def one(o):
             return (not m['check_on_set']) or (an and o is None) or (o in list(m['_objects']))
@@ -432,6 +499,8 @@ def check_class(cls, pobj, exc, decl, anc, route, cnt):
 def _constraints(tname, m):
     keys = [k for k in ('bounds', 'inclusive_bounds', 'regex', '_objects', 'check_on_set', 'length',
                         'allow_None') if k in m]
+    if FAMILY_OF[tname] in ('RNG', 'DRG'):
+        keys.insert(2, 'step')
     return tname + '(' + ', '.join('%s=%r' % (k, m[k]) for k in keys) + ')'
 
 
@@ -582,7 +651,7 @@ def replay_script(shape, decls, route, clause, at, witness):
     """Stand-alone reproduction: expected values are literals computed by the resolver."""
     merged, dby = {}, {}
     lines = [REPLAY_HEADER.format(prop='C11', name='replay_c11.py', clause=clause, witness=witness),
-             'import warnings, logging', 'import param', "warnings.simplefilter('ignore')",
+             'import warnings, logging, datetime', 'import param', "warnings.simplefilter('ignore')",
              "logging.getLogger('param').setLevel(logging.CRITICAL)", 'raised = None', 'try:']
     sh = SHAPES[shape]
     body = []
@@ -666,6 +735,12 @@ def replay_script(shape, decls, route, clause, at, witness):
 _UNSPEC = object()
 
 
+def admissible(spec):
+    """Declarations the resolver has a documented meaning for (see the module docstring)."""
+    d = dict(spec)
+    return not (d.get('readonly') is True and d.get('instantiate') is True)
+
+
 def _product_pool(types, dom):
     """All declarations type(**subset-of-attrs) over the attribute domains ``dom`` (attr -> values,
     _UNSPEC meaning 'left unspecified'), filtered to the individually constructible ones."""
@@ -675,6 +750,8 @@ def _product_pool(types, dom):
         for combo in itertools.product(*(dom[a] for a in attrs)):
             spec = tuple((a, v) for a, v in zip(attrs, combo) if v is not _UNSPEC)
             if any(a == 'regex' for a, _ in spec) and t != 'String':
+                continue
+            if not admissible(spec):
                 continue
             d = (t, spec)
             if constructible(d):
@@ -707,7 +784,27 @@ DOMAINS = {
         'mid': dict(default=[X, (1, 2), (1, 2, 3), ('a', 'b'), None], length=[X, 2], allow_None=[X, True]),
         'small': dict(default=[X, (1, 2, 3), ('a', 'b')], length=[X, 2]),
     },
+    # Range: the order of a non-None default is judged by the sign of step; soft bounds never matter
+    'RNG': {
+        'full': dict(default=[X, (1, 5), (5, 1), (3, 3), None], step=[X, 1, -1], bounds=[X, (0, 10), (2, 4)],
+                     softbounds=[X, (0, 3)], allow_None=[X, True, False]),
+        'mid': dict(default=[X, (1, 5), (5, 1), None], step=[X, 1, -1], bounds=[X, (2, 4)],
+                    allow_None=[X, True]),
+        'small': dict(default=[X, (1, 5), (5, 1)], step=[X, 1, -1], allow_None=[X, True]),
+        'tiny': dict(step=[X, 1, -1], allow_None=[X, True]),
+    },
+    'DRG': {
+        'full': dict(default=[X, (D1, D5), (D3, D3), None], step=[X, 1, -1], bounds=[X, (D2, D4)],
+                     softbounds=[X, (D0, D3)], allow_None=[X, True]),
+        'mid': dict(default=[X, (D1, D5), (D3, D3), None], step=[X, 1, -1], allow_None=[X, True]),
+        'small': dict(default=[X, (D1, D5), (D3, D3)], step=[X, -1]),
+        'tiny': dict(step=[X, -1], allow_None=[X, True]),
+    },
 }
+# explicitly written flags: full product per declaring class (block `flags`)
+FLAG3 = dict(readonly=[X, False, True], constant=[X, False, True], instantiate=[X, False, True])
+FLAGMID = [(), (('readonly', False),), (('readonly', True),), (('constant', False),), (('constant', True),),
+           (('instantiate', False),), (('instantiate', True),), (('readonly', False), ('constant', False))]
 PERI = {   # peripheral (non-validated / independent) attributes: value 1, value 2
     'doc': ('d1', None), 'label': ('L1', 'L2'), 'precedence': (1, -2), 'constant': (True, False),
     'instantiate': (True, False), 'step': (1, 2),
@@ -715,11 +812,15 @@ PERI = {   # peripheral (non-validated / independent) attributes: value 1, value
 SET1 = {'NUM': dict(default=5, bounds=(0, 10), inclusive_bounds=(True, True), step=1),
         'STR': dict(default='abc', regex=R1),
         'SEL': dict(default=1, objects={'a': 1, 'b': 2}),
-        'TUP': dict(default=(1, 2), length=2)}
+        'TUP': dict(default=(1, 2), length=2),
+        'RNG': dict(default=(1, 5), bounds=(0, 10), inclusive_bounds=(True, True), step=1, softbounds=(0, 8)),
+        'DRG': dict(default=(D1, D5), bounds=(D0, D9), inclusive_bounds=(True, True), step=1, softbounds=(D0, D5))}
 SET2 = {'NUM': dict(default=15, bounds=(6, 20), inclusive_bounds=(False, False), step=2),
         'STR': dict(default='xyz', regex=R2),
         'SEL': dict(default=3, objects=[2, 3]),
-        'TUP': dict(default=(1, 2, 3), length=3)}
+        'TUP': dict(default=(1, 2, 3), length=3),
+        'RNG': dict(default=(9, 7), bounds=(6, 20), inclusive_bounds=(False, False), step=-1, softbounds=(2, 4)),
+        'DRG': dict(default=(D3, D3), bounds=(D2, D4), inclusive_bounds=(False, False), step=-1, softbounds=(D2, D4))}
 COMMON1 = dict(allow_None=True, instantiate=True, constant=True, doc='d1', label='L1', precedence=1)
 COMMON2 = dict(allow_None=False, instantiate=False, constant=False, doc='d2', label='L2', precedence=2)
 
@@ -729,8 +830,17 @@ _pool_cache = {}
 def pool(fam, size):
     k = (fam, size)
     if k not in _pool_cache:
-        _pool_cache[k] = _product_pool(FAMILY_TYPES[fam], DOMAINS[fam][size])
+        if size == 'flags':        # explicit flags, every type of the family
+            _pool_cache[k] = _product_pool(FAMILY_TYPES[fam], FLAG3)
+        elif size == 'flagsg':     # explicit flags, the general type of the family
+            _pool_cache[k] = _product_pool(FAMILY_TYPES[fam][:1], FLAG3)
+        elif size == 'flagmid':
+            _pool_cache[k] = [d for d in ((t, sp) for t in FAMILY_TYPES[fam][:1] for sp in FLAGMID)
+                              if constructible(d)]
+        else:
+            _pool_cache[k] = _product_pool(FAMILY_TYPES[fam], DOMAINS[fam][size])
     return _pool_cache[k]
+
 
 
 def with_peri(decl, salt):
@@ -753,37 +863,97 @@ def with_peri(decl, salt):
     return nd
 
 
+PERI2 = {   # explicitly written flags of the blocks `flags`: (type default written out, the other value)
+    'allow_None': (False, True), 'per_instance': (True, False), 'pickle_default_value': (True, False),
+    'allow_refs': (False, True), 'nested_refs': (False, True), 'doc': (None, 'd1'), 'precedence': (None, 1),
+}
+
+
+def with_peri2(decl, salt):
+    """Hashed extra flags for the `flags` blocks: each of PERI2 is left unspecified (1/2), written
+    with its type default (1/4) or with the other value (1/4).  Never touches readonly / constant /
+    instantiate / default (the core of those blocks)."""
+    if decl is None:
+        return None
+    tname, spec = decl
+    h = zlib.crc32(('p2|' + salt).encode())
+    d = dict(spec)
+    if (h >> 20) & 3 == 0:
+        dv = SET1[FAMILY_OF[tname]]['default']
+        d['default'] = [dv] if tname == 'ListSelector' else dv
+        if tname in ('Selector', 'ListSelector'):
+            d['objects'] = SET1['SEL']['objects']
+    for i, a in enumerate(sorted(PERI2)):
+        r = (h >> (2 * i)) & 3
+        if r >= 2:
+            if a == 'allow_None' and FAMILY_OF[tname] == 'SEL' and r == 2:
+                continue            # Selector: allow_None=False next to a None default is C01's business
+            d[a] = PERI2[a][r - 2]
+    return (tname, tuple((a, d[a]) for a in ATTR_ORDER if a in d))
+
+
 # one block = (family, shape, pool sizes per position, allow skip per position)
-def blocks(tier):
+def blocks(tier, seed=0):
     q = tier != 'thorough'
     out = []
-    for fam in ('NUM', 'STR', 'SEL', 'TUP'):
+    for fam in OLD_FAMILIES:
         out.append((fam, 'chain2', ('mid', 'full') if q else ('full', 'full')))
         out.append((fam, 'chain3', ('small', 'small', 'mid') if q else ('small', 'mid', 'full')))
         out.append((fam, 'diamond', ('small',) * 4 if q else ('small', 'small', 'small', 'mid')))
         if not q:
             out.append((fam, 'chain4', ('small', 'small', 'small', 'mid')))
             out.append((fam, 'diamond_tail', ('small', 'small', 'small', 'small', 'small')))
+    # ranges: the validity of the inherited default depends on step (sign), bounds, allow_None
+    for fam in ('RNG', 'DRG'):
+        rng = fam == 'RNG'
+        out.append((fam, 'chain2', ('mid', 'full') if q or not rng else ('full', 'full')))
+        out.append((fam, 'chain3', ('small', 'small', 'mid' if rng else 'small') if q
+                    else ('small', 'small' if rng else 'mid', 'full' if rng else 'mid')))
+        out.append((fam, 'diamond', ('small', 'tiny', 'tiny', 'small') if q else ('small', 'tiny', 'small', 'mid')))
+        if not q and rng:
+            out.append((fam, 'chain4', ('small', 'tiny', 'small', 'mid')))
+            out.append((fam, 'diamond_tail', ('small', 'tiny', 'tiny', 'small', 'small')))
+    # explicitly written flags (type defaults included) next to unspecified related attributes
+    for k, fam in enumerate(FAMILIES):
+        out.append((fam, 'chain2', ('flagsg', 'flags') if q else ('flags', 'flags')))
+        if not q or (k + seed) % 6 == 0:
+            out.append((fam, 'chain3', ('flagsg', 'flagmid', 'flagsg' if q else 'flags')))
+        if not q or (k + seed) % 6 == 4:
+            out.append((fam, 'diamond', ('flagmid', 'flagmid', 'flagmid', 'flagsg')))
+        if not q and (k + seed) % 2 == 0:
+            out.append((fam, 'diamond', ('flagsg', 'flagmid', 'flagmid', 'flagmid')))
+        if not q and (k + seed) % 2 == 1:
+            out.append((fam, 'chain4', ('flagmid', 'flagsg', 'flagmid', 'flagsg')))
+        if not q and (k + seed) % 6 == 0:
+            out.append((fam, 'diamond_tail', ('flagmid', 'flagmid', 'flagmid', 'flagmid', 'flagsg')))
     return out
 
 
 def bound_text(tier, seed):
-    sizes = {(f, z): len(pool(f, z)) for f in DOMAINS for z in ('full', 'mid', 'small')}
+    sizes = {(f, z): len(pool(f, z)) for f in DOMAINS
+             for z in ('full', 'mid', 'small', 'tiny', 'flags', 'flagsg', 'flagmid') if z != 'tiny' or z in DOMAINS[f]}
     parts = []
-    for fam, shape, szs in blocks(tier):
+    for fam, shape, szs in blocks(tier, seed):
         parts.append('%s/%s[%s]' % (fam, shape, 'x'.join('%s:%d' % (z, sizes[(fam, z)]) for z in szs)))
     thorough = tier == 'thorough'
     return ('%s: every combination of the per-class declaration pools (core attributes: full product of the '
             'value lattices in DOMAINS, middle classes may also skip; peripheral attributes doc/label/'
             'precedence/constant/instantiate/step hashed from (seed, path)) for the blocks %s%s%s; chain2 with %s '
             'subsets of ALL attributes at the child x parent {specifies all, nothing} x {equal, conflicting values} '
-            'x 4 type pairs; %d seeded random hierarchies per family over chain3/chain4/diamond/diamond_tail '
-            'from the full pools; creation route of the tested class hashed over class statement / '
+            'x all type pairs of the family; %d seeded random hierarchies per family (half of that for RNG/DRG) over chain3/chain4/diamond/diamond_tail '
+            'from the full pools (RNG/DRG and flags blocks: class statement / add_parameter 2:1); block solo: %s (root x attribute x value x shape) combinations of one attribute '
+            'overridden alone (values equal / conflicting / explicit type default; roots all / core+allow_None / core; '
+            'chain2, chain3, diamond, diamond_tail with skipping or redeclaring middle classes; class statement / '
+            'add_parameter alternating); creation route of the tested class hashed over class statement / '
             'add_parameter / setattr'
             % (tier, ', '.join(parts),
-               '' if thorough else ' (diamond: the half of the root declarations selected by the seed)',
+               (' (flags blocks: peripheral flags allow_None/per_instance/pickle_default_value/allow_refs/nested_refs/'
+                'doc/precedence/default hashed; deep flags shapes for the families selected by the seed, half of the '
+                'flagmid roots)') if thorough else
+               ' (diamond, flags/chain2, DRG/chain2: the half of the root declarations selected by the seed; flags chain3/diamond: half of those again; DRG subsets: two of the four type pairs)',
                ' (diamond_tail: the third of the root declarations selected by the seed)' if thorough else '',
-               'all 2^n' if thorough else 'the size <= 2, size >= n-1 and a hashed 1/8 of the', 25000 if thorough else 3000))
+               'all 2^n' if thorough else 'the size <= 2, size >= n-1 and a hashed 1/8 of the', 25000 if thorough else 3000,
+               'all' if thorough else 'a hashed sixth of the'))
 
 
 ROUTES = (('class', 'class', 'class', 'addp', 'class', 'setattr', 'class') if INCLUDE_SETATTR_ROUTE
@@ -814,6 +984,10 @@ def dfs_block(block, root_index, seed, res, root_stride=1):
     param = _P()
     sh = SHAPES[shape]
     n = len(sh)
+    peri = with_peri2 if sizes[0].startswith('flag') else with_peri
+    # the added blocks alternate the two routes the statement names (the setattr route stops at its
+    # known name-unbound finding and would waste the case)
+    routes = ROUTES if (fam in OLD_FAMILIES and peri is with_peri) else ('class', 'addp', 'class')
     pools = []
     for i, sz in enumerate(sizes):
         pl = list(pool(fam, sz))
@@ -828,10 +1002,10 @@ def dfs_block(block, root_index, seed, res, root_stride=1):
         cands = [pools[0][root_index]] if i == 0 else pools[i]
         for j, d0 in enumerate(cands):
             key = path + '/%d' % (root_index if i == 0 else j)
-            d = with_peri(d0, '%d|%s|%s|%s' % (seed, fam, shape, key))
+            d = peri(d0, '%d|%s|%s|%s' % (seed, fam, shape, key))
             route = 'class'
             if last:
-                route = ROUTES[zlib.crc32(('r' + key).encode()) % len(ROUTES)]
+                route = routes[zlib.crc32(('r' + key).encode()) % len(routes)]
             cls, pobj, exc = create(cname, rbases, d, route)
             nd = decls + (d,)
             if d is None:
@@ -892,10 +1066,12 @@ def subset_block(fam, tier, seed, res, part, nparts):
     core1, core2 = SET1[fam], SET2[fam]
     all1 = dict(core1, **COMMON1)
     all2 = dict(core2, **COMMON2)
-    attrs = [a for a in ATTR_ORDER if a in all1 and not (a == 'step' and fam != 'NUM')]
-    gen, spe = FAMILY_TYPES[fam]
+    attrs = [a for a in ATTR_ORDER if a in all1 and not (a == 'step' and fam not in HAS_ATTR['step'])]
+    types = FAMILY_TYPES[fam]
     idx = 0
-    for ptype, ctype in ((gen, gen), (gen, spe), (spe, gen), (spe, spe)):
+    for ptype, ctype in itertools.product(types, repeat=2):
+        if fam == 'DRG' and tier != 'thorough' and (types.index(ptype) + types.index(ctype) + seed) % 2:
+            continue        # quick: the two type pairs selected by the seed
         for pmode in ('all1', 'none'):
             pspec = tuple((a, all1[a]) for a in attrs if not (a == 'regex' and ptype != 'String')) if pmode == 'all1' else ()
             pdecl = (ptype, pspec)
@@ -930,6 +1106,93 @@ def subset_block(fam, tier, seed, res, part, nparts):
                     res.nontrivial += 1
                     for cl, at, det in run_case('chain2', decls, route, res.cnt):
                         res.add_fail(cl, 'chain2', decls, route, det)
+
+
+COMMON1X = dict(readonly=True, per_instance=False, pickle_default_value=False, allow_refs=True, nested_refs=True)
+COMMON2X = dict(readonly=False, per_instance=True, pickle_default_value=True, allow_refs=False, nested_refs=False)
+SOLO_EXTRA1 = {'NUM': dict(softbounds=(0, 8))}
+SOLO_EXTRA2 = {'NUM': dict(softbounds=(2, 4))}
+EXPLICIT_TYPE_DEFAULT = dict(   # the documented default of the constructor argument, written out
+    bounds=None, softbounds=None, inclusive_bounds=(True, True), step=None, regex=None, objects=[],
+    allow_None=False, instantiate=False, constant=False, readonly=False, doc=None, label=None,
+    precedence=None, per_instance=True, pickle_default_value=True, allow_refs=False, nested_refs=False)
+SOLO_SHAPES = (   # (shape, position of the parent, positions of the middle classes: 'skip' | 'same' | 'doc')
+    ('chain2', ()), ('chain3', ('skip',)), ('chain3', ('doc',)),
+    ('diamond', ('skip', 'same')), ('diamond', ('same', 'skip')), ('diamond_tail', ('skip', 'doc', 'skip')),
+)
+
+
+def solo_block(fam, tier, seed, res, part, nparts):
+    """Every constructor attribute of every type of the family overridden ALONE by the last class
+    (value equal to the parent's / conflicting / the type default written out) under a root that
+    specifies everything, the core + allow_None=True, or the core only; chains and diamonds whose
+    middle classes skip the declaration, redeclare the same attribute or an unrelated one; the last
+    class is created by class statement or add_parameter."""
+    all1 = dict(SET1[fam], **COMMON1)
+    all1.update(SOLO_EXTRA1.get(fam, {}))
+    all2 = dict(SET2[fam], **COMMON2)
+    all2.update(SOLO_EXTRA2.get(fam, {}))
+    core1 = dict(SET1[fam])
+    core1.update(SOLO_EXTRA1.get(fam, {}))
+    v1 = dict(all1, **COMMON1X)
+    v2 = dict(all2, **COMMON2X)
+    attrs = [a for a in ATTR_ORDER if a in v1]
+    types = FAMILY_TYPES[fam]
+    idx = 0
+
+    def decl(t, d):
+        d = dict(d)
+        if t != 'String':
+            d.pop('regex', None)
+        if t == 'ListSelector' and d.get('default') is not None and 'default' in d:
+            d['default'] = [d['default']]
+        return (t, tuple((a, d[a]) for a in ATTR_ORDER if a in d))
+
+    for ptype, ctype in itertools.product(types, repeat=2):
+        for pmode, pd in (('all', all1), ('coreAN', dict(core1, allow_None=True)), ('core', core1)):
+            pdecl = decl(ptype, pd)
+            if not constructible(pdecl):
+                continue
+            for a in attrs:
+                if a == 'regex' and ctype != 'String':
+                    continue
+                vals = [v1[a], v2[a]]
+                if a == 'default':
+                    vals.append(TYPE_DEFAULTS[ctype]['default'])
+                elif a in EXPLICIT_TYPE_DEFAULT:
+                    vals.append(EXPLICIT_TYPE_DEFAULT[a])
+                for vi, v in enumerate(vals):
+                    cdecl = decl(ctype, {a: v})
+                    if not constructible(cdecl):
+                        res.skipped += 1
+                        continue
+                    other = vals[1] if vi != 1 else vals[0]
+                    for shape, mids in SOLO_SHAPES:
+                        idx += 1
+                        if idx % nparts != part:
+                            continue
+                        if tier != 'thorough' and zlib.crc32(b'solo|%d|%d' % (seed, idx)) % 6 != 0:
+                            continue
+                        ds = [pdecl]
+                        for mk in mids:
+                            if mk == 'skip':
+                                ds.append(None)
+                            elif mk == 'doc':
+                                ds.append(decl(ptype, {'doc': 'm'}))
+                            else:
+                                ds.append(decl(ptype, {a: other}))
+                        ds.append(cdecl)
+                        decls = tuple(ds)
+                        if not all(d is None or constructible(d) for d in decls):
+                            res.skipped += 1
+                            continue
+                        route = ('class', 'addp')[idx % 2]
+                        res.cases += 1
+                        res.nontrivial += 1
+                        if len(res.samples) < 1 and idx % 97 == 5:
+                            res.samples.append({'key': case_key(shape, decls, route)})
+                        for cl, at, det in run_case(shape, decls, route, res.cnt):
+                            res.add_fail(cl, shape, decls, route, det)
 
 
 def random_block(fam, tier, seed, res, part, nparts, total):
@@ -974,6 +1237,9 @@ def _work(task):
     elif kind == 'subset':
         _, fam, tier, seed, part, nparts = task
         subset_block(fam, tier, seed, res, part, nparts)
+    elif kind == 'solo':
+        _, fam, tier, seed, part, nparts = task
+        solo_block(fam, tier, seed, res, part, nparts)
     else:
         _, fam, tier, seed, part, nparts, total = task
         random_block(fam, tier, seed, res, part, nparts, total)
@@ -983,7 +1249,7 @@ def _work(task):
 
 def make_tasks(tier, seed):
     tasks = []
-    for block in blocks(tier):
+    for block in blocks(tier, seed):
         fam, shape, sizes = block
         nroot = len(pool(fam, sizes[0]))
         per = 1 if shape != 'chain2' else 4
@@ -991,19 +1257,28 @@ def make_tasks(tier, seed):
             roots = list(range(r, min(nroot, r + per)))
             if tier != 'thorough' and shape == 'diamond':
                 roots = [x for x in roots if (x + seed) % 2 == 0]   # half of the roots, chosen by seed
+            if tier != 'thorough' and shape == 'chain2' and (sizes[0].startswith('flag') or fam == 'DRG'):
+                roots = [x for x in roots if (x + seed) % 2 == 0]   # quick: half of the roots
+            if sizes[0].startswith('flag') and shape not in ('chain2', 'diamond_tail') and (
+                    tier != 'thorough' or sizes[0] == 'flagmid'):
+                roots = [x for x in roots if (x // 2 + seed) % 2 == 0]   # flags blocks: half of the roots
             if shape == 'diamond_tail':
                 roots = [x for x in roots if (x + seed) % 3 == 0]   # a third of the roots, chosen by seed
             if roots:
                 tasks.append(('dfs', block, roots, seed))
     nparts = 16 if tier == 'thorough' else 4
-    for fam in ('NUM', 'STR', 'SEL', 'TUP'):
+    for fam in FAMILIES:
         for p in range(nparts):
             tasks.append(('subset', fam, tier, seed, p, nparts))
+    for fam in FAMILIES:
+        for p in range(nparts):
+            tasks.append(('solo', fam, tier, seed, p, nparts))
     total = 25000 if tier == 'thorough' else 3000
     rparts = 64 if tier == 'thorough' else 8
-    for fam in ('NUM', 'STR', 'SEL', 'TUP'):
+    for fam in FAMILIES:
         for p in range(rparts):
-            tasks.append(('random', fam, tier, seed, p, rparts, total))
+            tasks.append(('random', fam, tier, seed, p, rparts,
+                          total if fam in OLD_FAMILIES else total // 2))
     return tasks
 
 
@@ -1013,9 +1288,11 @@ def _run(tier, seed):
         'C11',
         rule='one case = one hierarchy of fresh Parameterized classes (chain2/3/4, diamond, diamond+tail; '
              'middle classes may skip the declaration) with, per declaring class, a Parameter type of one '
-             'family (Number/Integer, Parameter/String, Selector/ListSelector, Tuple/NumericTuple) and a '
-             'subset of {default,bounds,inclusive_bounds,step,regex,objects,length,check_on_set,allow_None,'
-             'instantiate,constant,doc,label,precedence} with conflicting / non-conflicting values; last '
+             'family (Number/Integer, Parameter/String, Selector/ListSelector, Tuple/NumericTuple, Range, '
+             'DateRange/CalendarDateRange) and a '
+             'subset of {default,bounds,softbounds,inclusive_bounds,step,regex,objects,length,check_on_set,allow_None,'
+             'instantiate,constant,readonly,per_instance,pickle_default_value,allow_refs,nested_refs,doc,label,'
+             'precedence} with conflicting / non-conflicting / explicitly-the-type-default values; last '
              'class created by class statement, add_parameter or setattr(cls, name, Parameter); every class '
              'of the hierarchy is compared slot by slot with an independent resolver and "raised" with '
              'valid(merged).  Distinct = distinct (shape, route, declarations); non-trivial = the tested '
